@@ -9,6 +9,7 @@ a crash cancels the teardown itself, which the statement excludes.
 import AsphaltModel.Tasks
 import AsphaltProofs.Lemmas.Assoc
 import AsphaltProofs.Lemmas.Tasks
+import AsphaltProofs.Lemmas.TasksLate
 
 namespace Asphalt
 
@@ -22,10 +23,13 @@ def TReach (prog : List Setup) (s : TSt) : Prop := ∃ ls, TExec (TSt.init prog)
 def RegisteredBefore (prog : List Setup) (id tid : Nat) : Prop :=
   ∃ pre r mid sp post, prog = pre ++ [.reg id r] ++ mid ++ [.start sp] ++ post ∧ sp.tid = tid
 
-/-- Task ids and callback ids of a set-up program are pairwise distinct. -/
+/-- Task ids (of the tasks started by the set-up program and of the late ones, together) and callback
+ids of a set-up program are pairwise distinct, and each callback starts at most one late task. -/
 def DistinctIds (prog : List Setup) : Prop :=
-  (prog.filterMap fun s => match s with | .start sp => some sp.tid | _ => none).Nodup ∧
-  (prog.filterMap fun s => match s with | .reg id _ => some id | _ => none).Nodup
+  (prog.filterMap fun s => match s with
+    | .start sp => some sp.tid | .late _ sp => some sp.tid | _ => none).Nodup ∧
+  (prog.filterMap fun s => match s with | .reg id _ => some id | _ => none).Nodup ∧
+  (prog.filterMap fun s => match s with | .late cb _ => some cb | _ => none).Nodup
 
 /-- Teardown does not proceed to a callback registered before a task was started until that
 task and its context have completely finished. -/
@@ -35,11 +39,10 @@ theorem C08_before_earlier (prog : List Setup) (hd : DistinctIds prog) (s s' : T
     ∃ e, s.statusOf tid = some (.closed e) := by
   obtain ⟨ls, hex⟩ := h
   have hinv := reach_inv prog ls s hex hc
-  have hinv2 := reach_inv2 prog hd.1 hd.2 ls s hex hc
-  have hnd := init_stack_nodup prog hd.1 hd.2
+  have hinv2 := reach_inv2 prog hd.1 hd.2.1 ls s hex hc
+  have hnd := init_stack_nodup prog hd.1 hd.2.1
   obtain ⟨s1, n, hcore, _⟩ := tstep_core _ _ _ hstep hc (by intros; simp)
-  cases hcore with
-  | cbRun _ r' rest ex hexi hw hstk =>
+  obtain ⟨hexi, hw, r', rest, hstk⟩ := core_cbRun_stack _ _ _ hcore
   obtain ⟨pre, r, mid, sp, post, hprog, htid⟩ := hb
   have hI : (TSt.init prog).stack =
       ((TSt.init post).stack ++ Item.fin tid :: (TSt.init mid).stack) ++
@@ -47,10 +50,10 @@ theorem C08_before_earlier (prog : List Setup) (hd : DistinctIds prog) (s s' : T
     rw [hprog, init_stack_append, init_stack_append, init_stack_append, init_stack_append,
       init_stack_reg, init_stack_start, htid]
     simp only [List.append_assoc, List.cons_append, List.nil_append]
-  obtain ⟨popped, hpop⟩ := hinv2.suffix
+  obtain ⟨popped, hpop⟩ := hinv2.cb_top _ _ _ id r' rest hstk
   rw [hstk] at hpop
   have hr : r' = r :=
-    init_stack_cb_unique prog hd.2 id r' r (by rw [← hpop]; simp) (by rw [hI]; simp)
+    init_stack_cb_unique prog hd.2.1 id r' r (by rw [← hpop]; simp) (by rw [hI]; simp)
   subst hr
   have hsplit := nodup_split_unique _ _ _ _ _ (hpop ▸ hnd) (hpop.trans hI)
   have hgone : Item.fin tid ∉ s.stack := by
@@ -117,7 +120,7 @@ theorem C08_snapshot (prog : List Setup) (s s' : TSt) (h : TReach prog s) (tid :
   have hfr := reach_frame prog ls s hex hc
   obtain ⟨s1, n, hcore, _⟩ := tstep_core _ _ _ hstep hc (by intros; simp)
   cases hcore with
-  | taskSaw _ _ hv => rw [← hfr.2]; exact hv
+  | taskSaw _ _ hv => rw [← hfr.2.1]; exact hv
 
 /-- An exception escaping a service task takes the application down instead of vanishing: it is
 among the exceptions the caller sees. -/
@@ -147,14 +150,34 @@ stack is only ever popped from the top.
 
 CORRECTED STATEMENT: the original `C08_stack_suffix` had no `DistinctIds` hypothesis and is false
 without it (two service tasks with the same id: popping the finalizer of the first also removes
-the finalizer of the second from the middle of the stack, see `stack_suffix_counterexample`). -/
+the finalizer of the second from the middle of the stack, see `stack_suffix_counterexample`).
+
+RESTATED for set-up programs with `Setup.late` entries: a teardown callback that starts a service task
+pushes that task's finalizer, so the stack is a suffix `rest` of the initial one with at most one
+item on top of it, the finalizer of a late task whose callback has run. -/
 theorem C08_stack_suffix (prog : List Setup) (hd : DistinctIds prog) (s : TSt) (h : TReach prog s)
     (hc : s.crashed = []) :
-    ∃ popped, popped ++ s.stack = (TSt.init prog).stack := by
+    ∃ popped lateFins rest, popped ++ rest = (TSt.init prog).stack ∧ s.stack = lateFins ++ rest ∧
+      lateFins.length ≤ 1 ∧
+      ∀ i, i ∈ lateFins → ∃ cb sp, Setup.late cb sp ∈ prog ∧ i = .fin sp.tid ∧
+        TLab.cbRun cb ∈ s.hist := by
   obtain ⟨ls, hex⟩ := h
-  exact (reach_inv2 prog hd.1 hd.2 ls s hex hc).suffix
+  exact reach_shape prog hd.1 hd.2.1 ls s hex hc
 
-/-- The statement of `C08_stack_suffix` without `DistinctIds` is refuted by the set-up program
+/-- The original form of `C08_stack_suffix`, for set-up programs in which no teardown callback starts
+a service task. -/
+theorem C08_stack_suffix_no_late (prog : List Setup) (hd : DistinctIds prog)
+    (hnl : ∀ cb sp, Setup.late cb sp ∉ prog) (s : TSt) (h : TReach prog s) (hc : s.crashed = []) :
+    ∃ popped, popped ++ s.stack = (TSt.init prog).stack := by
+  obtain ⟨popped, lateFins, rest, hp, hs, _, hlf⟩ := C08_stack_suffix prog hd s h hc
+  cases lateFins with
+  | nil => exact ⟨popped, by rw [hs]; exact hp⟩
+  | cons i _ =>
+    obtain ⟨cb, sp, hl, _⟩ := hlf i List.mem_cons_self
+    exact absurd hl (hnl cb sp)
+
+/-- The original statement of `C08_stack_suffix` (now `C08_stack_suffix_no_late`) without `DistinctIds` is
+refuted by the set-up program
 `[start 1, reg 5, start 1]` and the run `exitBegin, taskEnded 1, taskClosed 1`: the stack goes from
 `[fin 1, cb 5, fin 1]` to `[cb 5]`. -/
 theorem stack_suffix_counterexample :
